@@ -33,8 +33,8 @@ CHECKS = {
             "store key (multi-store feature off) and timelock executor names are not exercised", "§5 C35"),
     "C22": ("exploration", "chainsim/scn-exchange",
             SIM + ": invariant after every landed transaction of exchange histories over markets sharing vaults, with dust transfers, soft failures and keeper retries",
-            "After every landed transaction of seeded exchange histories (deposits, withdrawals, shifts, swaps, position orders, liquidations, fee updates over 3–5 markets sharing vaults, one pure) each market's recorded balance covers liquidity+impact+fees and, separately, collateral, and each vault's SPL balance covers the recorded balances of all markets sharing it.",
-            "fee claims and market_transfer_in are not yet in the workload", "§5 C22"),
+            "After every landed transaction of seeded exchange histories (deposits, withdrawals, shifts, swaps, position orders, liquidations, auto-deleveraging, fee claims by the receiver, keeper transfers, fee updates over 3–5 markets sharing vaults, one pure) each market's recorded balance covers liquidity+impact+fees and, separately, collateral, and each vault's SPL balance covers the recorded balances of all markets sharing it.",
+            "GLV vaults are checked in scn-glv (vault_conservation)", "§5 C22"),
     "C23": ("fault_enumeration", "chainsim/scn-exchange",
             SIM + ": action lifecycle state machine + escrow ledger under transaction duplication, stale prices, soft/hard failures, closes by owner/keeper/stranger, and a final drain (bounded liveness)",
             "Every deposit, withdrawal, shift and order is tracked through a three-state model; executes of non-pending actions (keeper retries) must fail, soft-failed executes must cancel, leave every market untouched and keep the escrow, closes are allowed only per the ownership rules and must return every escrowed token and the execution lamports; at the end every owner closes everything and all escrows must be empty.",
